@@ -145,13 +145,56 @@ def ref_eval(n, graph):
 
 
 # ---------- observation ----------
-def observe(graph, order, ops):
+def topo_order(rnd, graph):
+    """a random order in which every command comes after the commands it references"""
+    done, order, todo = set(), [], sorted(graph)
+    while todo:
+        ready = [i for i in todo if all(t in done for _, t in rl_of(graph[i]))]
+        i = rnd.choice(ready)
+        order.append(i)
+        done.add(i)
+        todo.remove(i)
+    return order
+
+
+def build_api(graph, order, by_object):
+    """the same program built in code with Program.add_command; a reference is given as the Command object itself or by name"""
+    p = Program(libraries=("verif_cmds",))
+    cls = p.find_command_class("Probe")
+    text = ["p = Program(libraries=('verif_cmds',))"]
+    k = [0]
+
+    def ref(v):
+        if isinstance(v, list):
+            xs = [ref(x) for x in v]
+            return [x[0] for x in xs], "[" + ", ".join(x[1] for x in xs) + "]"
+        k[0] += 1
+        if by_object[k[0] % len(by_object)]:
+            return p.commands["r%d" % v], "p.commands['r%d']" % v
+        return "r%d" % v, "'r%d'" % v
+    for i in order:
+        args, targs = {"Id": i}, ["'Id': %d" % i]
+        slots = {"D": 0, "L": 0, "N": 0}
+        for kind, v in graph[i]:
+            slots[kind] += 1
+            val, t = ref(v)
+            args["%s%d" % (kind, slots[kind])] = val
+            targs.append("'%s%d': %s" % (kind, slots[kind], t))
+        p.add_command(cls, "r%d" % i, args)
+        text.append("p.add_command(Probe, 'r%d', {%s})" % (i, ", ".join(targs)))
+    return p, "\n".join(text)
+
+
+def observe(graph, order, ops, by_object=None):
     n = len(graph)
     src = render(graph, order)
     del probe.LOG[:]
     obs = {"tag": 3, "rep": None, "vals": [], "enter": [], "exit": [], "after": 0, "detail": "", "identity_ok": True}
     try:
-        p = Program.from_source(src, libraries=("verif_cmds",))
+        if by_object is not None:
+            p, src = build_api(graph, order, by_object)
+        else:
+            p = Program.from_source(src, libraries=("verif_cmds",))
     except Exception as ex:  # the generated programs are all loadable
         obs["detail"] = "load: %s" % type(ex).__name__
         return src, obs
@@ -262,6 +305,8 @@ def main():
             rnd.shuffle(order)
             ops = [rnd.choice([("run",), ("result", rnd.randrange(nn))]) for _ in range(rnd.randint(0, 8))]
             jobs.append((g, order, ops))
+            if rnd.random() < 0.25:  # the same graph built in code, references given as Command objects and/or names
+                jobs.append((g, topo_order(rnd, g), ops, [rnd.random() < 0.6 for _ in range(7)]))
             if rnd.random() < 0.3:   # the same graph in another file order (C02: order independence)
                 order2 = list(order)
                 rnd.shuffle(order2)
@@ -288,9 +333,11 @@ def main():
             order = list(range(nn))
             rnd.shuffle(order)
             jobs.append((g, order, []))
-    for g, order, ops in jobs:
+    for job in jobs:
+        g, order, ops = job[:3]
         nn = len(g)
-        src, obs = observe(g, order, ops)
+        src, obs = observe(g, order, ops, job[3] if len(job) > 3 else None)
+        dist["built_in_code"] = dist.get("built_in_code", 0) + int(len(job) > 3)
         cyc = has_cycle(nn, g)
         dist["programs"] += 1
         dist["sizes"][nn] = dist["sizes"].get(nn, 0) + 1
@@ -312,7 +359,7 @@ def main():
                     nontrivial += 1
             elif nn >= 1 and cyc:
                 nontrivial += 1
-        replay = {"source": src, "libraries": ["verif_cmds"], "history": ops}
+        replay = {"source": src, "libraries": ["verif_cmds"], "history": ops, "built": "Program.add_command" if len(job) > 3 else "Program.from_source"}
         # ----- property oracle on the real code -----
         if not cyc:
             if obs["tag"] != 0:
